@@ -51,6 +51,9 @@ pub fn regex_wide() -> Vec<String> {
     let mut v: Vec<String> = REGEX_LITS.iter().map(|s| s.to_string()).collect();
     for p in [
         "ab{2}", "a{1,2}b", "b{0}", "[ab]{2,}", "a.c", "a.b", "a\\.b", "a?b", "a|b", "^ab$", "\\w+", "\\bA", "(?:ab)+", "\\(a\\)", "\\[a\\]", "a\\+", "a\\*", "\\^a", "a\\$", "a\\|b", "\\\\", "}", "{", "a{", "a{2", "a}", "]", "x{64}y", "^x+[yz]$", "(a)(a)",
+        // groups that take no part in the match (alternation, optional, repeated zero times): group N
+        // is capture group N, not the N-th group that matched
+        "(a)|(b)", "(z)?(a)(b)?", "(a)|(b)|(ab)", "(x)*(a)(y)?(b)", "(?:(a)|(b))+", "([0-9]+)-(y)?(x)", "(b)?(a)",
         "(?P<n>a)b", "a$|b", "\\d{2}", "[[:alpha:]]+", "\\p{L}+", "(?s).", "(?m)^b", "a,b", " ", "\\t", "\\n",
     ] {
         v.push(js(p));
